@@ -35,7 +35,12 @@ func runHdr(d int, sz []byte, cks []int) string {
 		rd = append(rd, errClass(e))
 		szs = append(szs, strconv.Itoa(zr.Size()))
 	}
-	return fmt.Sprintf("vfh=%s rd=%s size=%s", strings.Join(v, ","), strings.Join(rd, ","), strings.Join(szs, ","))
+	// acc: accepted or not, per checksum byte (compared with the frame specification's own verdict)
+	acc := make([]string, len(v))
+	for i := range v {
+		acc[i] = v[i][:1]
+	}
+	return fmt.Sprintf("acc=%s vfh=%s rd=%s size=%s", strings.Join(acc, ","), strings.Join(v, ","), strings.Join(rd, ","), strings.Join(szs, ","))
 }
 
 func hdrCks(d int, sz []byte, all bool, r *rng) []int {
@@ -74,6 +79,16 @@ func compHdr(o *out, seed uint64, tier string) {
 		ok, err := lz4.ValidFrameHeader(in)
 		o.emit("hdrm", fmt.Sprintf("in=%s", hx(in)), fmt.Sprintf("vfh=%d%s", b2i(ok), errClass(err)), true)
 		o.count("non-magic")
+	}
+	// every first word around the reserved skippable range, followed by a 3-byte payload and a valid
+	// header: exactly the sixteen magics 0x184D2A50..5F are skipped, every other word is not a frame
+	for m := uint32(0x184D2A40); m <= 0x184D2A6F; m++ {
+		in := binary.LittleEndian.AppendUint32(nil, m)
+		in = binary.LittleEndian.AppendUint32(in, 3)
+		in = append(in, 9, 9, 9, 0x04, 0x22, 0x4d, 0x18, 0x64, 0x40, 0xa7)
+		ok, err := lz4.ValidFrameHeader(in)
+		o.emit("hdrm", fmt.Sprintf("in=%s", hx(in)), fmt.Sprintf("vfh=%d%s", b2i(ok), errClass(err)), true)
+		o.count("skippable-range")
 	}
 	for d := 0; d < 65536; d++ {
 		sz := make([]byte, 8)
